@@ -94,12 +94,14 @@ def cases(seed, tier):
                     del steps[-1]['emdpath']
         out.append({'tops': tops, 'steps': steps})
     # composition (Custom) nodes: the nodes held in attributes are caller objects too (this stream comes last: see emit)
-    return out + [K.gen_c19_custom(rng) for _ in range(n // 4)]
+    return out + [K.gen_c19_custom(rng) for _ in range(n // 4)] + [K.gen_c19_state(rng) for _ in range(n // 5)]
 
 
 def _run_custom(args):
     c, scratch = args
     try:
+        if c.get('kind') == 'state':
+            return K.run_c19_state(c, scratch)
         return K.run_c19_custom(c, scratch)
     except BaseException:
         import traceback
@@ -107,16 +109,27 @@ def _run_custom(args):
 
 
 def run_all(cases, scratch):
-    nt = sum(1 for c in cases if c.get('kind') != 'custom')
+    nt = sum(1 for c in cases if c.get('kind') not in ('custom', 'state'))
     return T.run_all(cases[:nt], scratch) + core.pmap(_run_custom, [(c, scratch) for c in cases[nt:]])
 
 
 def emit(cases, results):
-    nt = sum(1 for c in cases if c.get('kind') != 'custom')
+    nt = sum(1 for c in cases if c.get('kind') not in ('custom', 'state'))
     return T.emit(cases[:nt], results[:nt])
 
 
 def oracle(case, obs):
+    if case.get('kind') == 'state':
+        where = f"save of {case['what']} (mode={case['mode']}, in_tree={case['in_tree']}, raised={obs['raised']})"
+        if not obs['unchanged']:
+            return {'key': 'object-state-changed-by-save' + ('-on-failure' if obs['raised'] else ''), 'what': where + f": {obs.get('diff')}"}
+        if obs.get('second_unchanged') is False:
+            return {'key': 'object-state-changed-by-save', 'what': where + ': changed by the second save'}
+        if obs.get('same_files') is False:
+            return {'key': 'repeat-save-differs', 'what': where + ': saving the same object twice to fresh paths gives different content'}
+        if obs['raised'] is None and 'second_raised' in obs:
+            return {'key': 'second-save-raised', 'what': where + f": {obs['second_raised']}"}
+        return None
     if case.get('kind') == 'custom':
         where = f"save of a Custom node (attributes {[(a['attr'], a['name'], a['kind']) for a in case['attrs']]}, mode={case['mode']}, raised={obs['raised']})"
         if not obs['unchanged']:
@@ -150,13 +163,13 @@ def oracle(case, obs):
 
 
 def pick_smallest(cases_, idxs):
-    return min(idxs, key=lambda i: len(cases_[i]['steps']) if 'steps' in cases_[i] else len(cases_[i]['attrs']))
+    return min(idxs, key=lambda i: len(cases_[i]['steps']) if 'steps' in cases_[i] else len(cases_[i].get('attrs', [])))
 
 
 def nontrivial(cases_, results):
     s = set()
     for c, r in zip(cases_, results):
-        if c.get('kind') == 'custom':
+        if c.get('kind') in ('custom', 'state'):
             s.add(repr(c)); continue
         for st, o in zip(c['steps'], r):
             if st['op'] == 'save' and (st.get('input') or st.get('readd') or o['raised']):
@@ -171,7 +184,7 @@ def samples(cases_, results):
 def distribution(cases_, results):
     d = {'saves': 0, 'raised': 0, 'inputs': {}, 'custom_saves': 0, 'custom_raised': 0}
     for c, r in zip(cases_, results):
-        if c.get('kind') == 'custom':
+        if c.get('kind') in ('custom', 'state'):
             d['custom_saves'] += 1; d['custom_raised'] += (not isinstance(r, list) and r['raised'] is not None)
             continue
         for st, o in zip(c['steps'], r):
